@@ -89,6 +89,19 @@ pub fn check(sh: &Shared, c: &Case) -> Check {
             both.insert(y.clone());
             (h1 == h2, d1.finish() == d2.finish(), contains, got, both.len())
         });
+        // the same, with the second operand hashed / looked up on ANOTHER thread (same hasher state)
+        if rep == 0 && c.t1.first().map(|b| b % 4 == 0).unwrap_or(false) {
+            sh.class("history/hashed-on-other-thread");
+            let rs = RandomState::new();
+            let h1 = rs.hash_one(&x);
+            let set: HashSet<Term> = HashSet::from([x.clone()]);
+            let (h2, found) = std::thread::scope(|s| {
+                std::thread::Builder::new().stack_size(64 << 20).spawn_scoped(s, || (rs.hash_one(&y), set.contains(&y))).unwrap().join().unwrap()
+            });
+            if h1 != h2 || !found {
+                fail!("hash:thread-dependent", "equal terms: hash on this thread {h1:#x}, on another thread {h2:#x} (same RandomState); a set filled here finds the equal key from the other thread: {found}\nx = {:?}\ny = {:?}", c.a, b);
+            }
+        }
         match res {
             Err(p) => fail!("hash:panic", "hashing panicked: {p}"),
             Ok((rs_eq, dh_eq, contains, got, len)) => {
